@@ -47,6 +47,7 @@ type Output struct {
 	Rule       string           `json:"rule"`
 	DetChecked int              `json:"determinism_rechecks"`
 	Harness    string           `json:"harness_error,omitempty"`
+	RunDigest  string           `json:"run_digest"` // hash over (world index, event digest, verdict) of every world, in order
 }
 
 func die(code int, format string, a ...any) {
@@ -148,6 +149,15 @@ func raceVerdict(logPath string, from int64) (*h.Violation, string) {
 	return nil, ""
 }
 
+func fnvStr(s string) uint64 {
+	var hh uint64 = 1469598103934665603
+	for i := 0; i < len(s); i++ {
+		hh ^= uint64(s[i])
+		hh *= 1099511628211
+	}
+	return hh
+}
+
 func worldHash(w *h.World) uint64 {
 	b, _ := json.Marshal(struct {
 		S []*h.Node
@@ -184,6 +194,7 @@ func cmdRun(args []string) {
 	o := &Output{Prop: *prop, Seed: *seed, Start: *start, Faults: map[string]int64{}, Probes: map[string]int64{}, Rule: sc.Rule}
 	seen := map[uint64]bool{}
 	found := map[string]*Found{}
+	var runDigest uint64 = 1
 	for k := 0; k < *count; k++ {
 		if time.Since(t0).Seconds() > *budget {
 			break
@@ -222,6 +233,11 @@ func cmdRun(args []string) {
 		}
 		h.Finalize(w, ro)
 		o.Worlds++
+		cls := ""
+		if ro.V != nil {
+			cls = ro.V.Class
+		}
+		runDigest = h.Mix(runDigest, fnvStr(fmt.Sprintf("%d|%s|%s", idx, ro.Digest, cls)))
 		o.Ops += ro.X.Ops
 		o.Steps += ro.X.Steps
 		for k, v := range ro.X.Faults {
@@ -269,6 +285,7 @@ func cmdRun(args []string) {
 		}
 	}
 	o.WallS = time.Since(t0).Seconds()
+	o.RunDigest = strconv.FormatUint(runDigest, 16)
 	b, err := json.Marshal(o)
 	if err != nil {
 		die(2, "marshal: %v", err)
